@@ -117,4 +117,53 @@ example : (run Cfg.fixed witnessA).vals 0 = 100 ∧ (run Cfg.fixed witnessB).syn
     (run Cfg.fixed witnessC).vals 0 = 30 ∧ (run Cfg.fixed witnessD).vals 0 = 100 ∧
     (run Cfg.fixed (witnessC' ++ [.tick])).log = [] := by decide
 
+
+/-! ### what holds: every schedule that meets no hazard — for the patch, every schedule
+
+`HazardFree c evs` (Async/Spec.lean) excludes, for the code as it is (`Cfg.current`), exactly:
+  (a) `hazA`: a plain value assigned to `p` while `p ∈ syncing` (a coroutine is suspended inside its scope);
+  (b) `hazB`: a coroutine assigned while another coroutine task is unfinished (overlapping scopes);
+  (c, d) `hazD`: an assignment to `p` while a task of `p` has been scheduled but has not started.
+Each flag of the patch switches one of them off (`hazard_fixed`). -/
+
+theorem latest_wins (c : Cfg) : LatestWins c (HazardFree c) := by
+  intro evs p t x hz hq hl ht hs hn
+  exact inv_latest_wins c _ (inv_run c evs hz) hq p t x hl ht hs hn
+
+theorem plain_assignment_cancels_for_good (c : Cfg) : PlainCancelsForGood c (HazardFree c) := by
+  intro evs p v hz hl
+  exact inv_plain c _ (inv_run c evs hz) p v hl
+
+theorem syncing_empty_when_quiescent (c : Cfg) : SyncingEmptyWhenQuiescent c (HazardFree c) := by
+  intro evs hz hq ha
+  exact inv_quiescent c _ (inv_run c evs hz) hq ha
+
+/-- the code as it is in /repo, minus the three situations above -/
+theorem latest_wins_partial : LatestWins Cfg.current (HazardFree Cfg.current) := latest_wins _
+theorem plain_assignment_cancels_for_good_partial : PlainCancelsForGood Cfg.current (HazardFree Cfg.current) :=
+  plain_assignment_cancels_for_good _
+theorem syncing_empty_when_quiescent_partial : SyncingEmptyWhenQuiescent Cfg.current (HazardFree Cfg.current) :=
+  syncing_empty_when_quiescent _
+
+/-- the proposed patch: every schedule -/
+theorem latest_wins_fixed : LatestWins Cfg.fixed (fun _ => True) :=
+  fun evs p t x _ => latest_wins Cfg.fixed evs p t x (hazardFree_fixed evs)
+theorem plain_assignment_cancels_for_good_fixed : PlainCancelsForGood Cfg.fixed (fun _ => True) :=
+  fun evs p v _ => plain_assignment_cancels_for_good Cfg.fixed evs p v (hazardFree_fixed evs)
+theorem syncing_empty_when_quiescent_fixed : SyncingEmptyWhenQuiescent Cfg.fixed (fun _ => True) :=
+  fun evs _ => syncing_empty_when_quiescent Cfg.fixed evs (hazardFree_fixed evs)
+
+/-! ### non-vacuity: hazard-free schedules of the code as it is that do exercise supersession -/
+
+/-- a generator superseded by a generator, completions out of order, then overridden by a plain value -/
+def calmSchedule : List Event :=
+  [.assign 0 (.agen 2), .tick, .complete 0 0 11, .tick, .assign 0 (.agen 1), .tick, .complete 0 1 12, .complete 1 0 20,
+   .tick, .assign 1 .coro, .tick, .assign 0 (.plain 100), .complete 2 0 30, .tick]
+
+example : HazardFree Cfg.current calmSchedule := by unfold HazardFree; decide
+example : (run Cfg.current calmSchedule).ready = [] ∧ (run Cfg.current calmSchedule).last 1 = .task 2 ∧
+    (run Cfg.current calmSchedule).last 0 = .plain 100 ∧ allSettled (run Cfg.current calmSchedule) = true ∧
+    (run Cfg.current calmSchedule).vals 1 = 30 ∧ (run Cfg.current calmSchedule).vals 0 = 100 ∧
+    (run Cfg.current calmSchedule).log = [(0, 11), (0, 20), (0, 100), (1, 30)] := by decide
+
 end ParamVerif.Async
